@@ -30,6 +30,7 @@ TRUSTED = [
     "abstract expression semantics (Section variables: ev, elems, truthy, assign); the translation functions to_gens / "
     "gen_body are tied to compile_comprehension by comparing strategy and emitted structure on every generated program",
     "the reference interpreter props/comp_progs.py (docs/api.rst: lfor, for), the generator and harness; CPython as executor",
+    sc.DEVIATION_TRUST,
 ]
 
 M_LEADING_IF = "c04_leading_if_native_indexerror"
@@ -160,6 +161,10 @@ def run(chk):
                  sample={"program": srcs[i], "expected_log": refs[i][1]["log"][-3:]} if i % 397 == 3 else None)
         c = classify(p, refs[i], r)
         inp = {"label": lab, "program": srcs[i], "features": f}
+        if c is not None and c[0] != "ok-eager-first-iterable" and sc.tolerate_interpreter_deviation(
+                chk, r, cp.WATCH, lambda res, p=p, i=i: classify(p, refs[i], res) in (None,) or
+                (classify(p, refs[i], res) or ("",))[0] == "ok-eager-first-iterable", srcs[i]):
+            c = None
         if c is not None and c[0] == "ok-eager-first-iterable":
             chk.count("gfor:first-iterable-evaluated-on-creation")
             c = None
@@ -175,8 +180,14 @@ def run(chk):
             if not same and "compile_err" not in rt:
                 # a lazy gfor may place the effects of its first iterable before or after creation
                 tw = twin(p)
-                ct = classify(tw, cp.reference(tw), rt)
+                rtw = cp.reference(tw)
+                ct = classify(tw, rtw, rt)
                 same = ct is None or ct[0] == "ok-eager-first-iterable"
+                if not same:
+                    def conf(res, tw=tw, rtw=rtw):
+                        cc = classify(tw, rtw, res)
+                        return cc is None or cc[0] == "ok-eager-first-iterable"
+                    same = sc.tolerate_interpreter_deviation(chk, rt, cp.WATCH, conf, cp.render_program(tw))
             if not same:
                 obs = {"native_log": r.get("log"), "generator_function_log": rt.get("log"),
                        "exception": rt.get("exc") or rt.get("compile_err"), "python": (rt.get("py") or "")[:2500]}
